@@ -121,7 +121,7 @@ func (l *Lexer) scanToken() error {
 	case '/':
 		if l.match('/') {
 			// Line comment
-			for l.peek() != '\n' && !l.isAtEnd() {
+			for !isLineBreak(l.peek()) && !l.isAtEnd() {
 				l.advance()
 			}
 		} else if l.match('*') {
@@ -478,4 +478,14 @@ func isAlpha(r rune) bool {
 
 func isAlphaNumeric(r rune) bool {
 	return isAlpha(r) || isDigit(r)
+}
+
+// isLineBreak reports whether r ends a line comment (WGSL line breaks:
+// LF, VT, FF, CR, NEL, LS, PS).
+func isLineBreak(r rune) bool {
+	switch r {
+	case '\n', '\v', '\f', '\r', 0x85, 0x2028, 0x2029:
+		return true
+	}
+	return false
 }
